@@ -25,8 +25,9 @@ def step_bound(code, cfg):
     threads = 1 + F * J
     copies = sum(1 for i, k in enumerate(kinds) if k == "O" and code[i] in COPY_OPS)
     # each thread executes each instruction at most L times (+1 for the first instruction of a forked thread, which
-    # is not what the property allows but must not make the *bound* unsound); each copy opcode adds <= 768 polls
-    per_thread = (L + 1) * n * (1 + (768 if copies else 0))
+    # is not what the property allows but must not make the *bound* unsound); every execution of a copy opcode adds at
+    # most 768 polled iterations (24 576 bytes, the largest clamp any of them applies)
+    per_thread = (L + 1) * (n + 768 * copies)
     return threads, J, threads * per_thread + 1000
 
 
@@ -170,7 +171,11 @@ def shard(shard_no, nshards, seed, tier, extra):
     d = common.Driver("rel", shim=True)
     for i in range(n):
         r = rng.random()
-        if r < 0.1:
+        if r < 0.08:
+            # boundary constants in every sink position: sizes and offsets of the bulk copies, hashes, calls, logs
+            code, feats = progs.sinks(rng, evm.boundary_constants())
+            feats = set(feats) | {"shape:sinks"}
+        elif r < 0.16:
             code, feats = progs.cyclic_types(rng)
         elif r < 0.7:
             code, feats = progs.loopy(rng)
@@ -208,11 +213,11 @@ def run(tier, seed, t0):
         PROP, tier, seed, res, "exploration",
         "control-flow shapes (tight self-loops, nested loops, two JUMPDESTs above a fork target, jump tables, "
         "stack-growing loops, fork bombs with shared targets, gas burners, random jump graphs, forward-only programs "
-        "with bad targets), storage read-mask-write programs and container-cyclic storage evidence (an array / mapping "
+        "with bad targets), programs with boundary constants as sizes / offsets of bulk copies, hashes, calls and logs, storage read-mask-write programs and container-cyclic storage evidence (an array / mapping "
         "element receiving its own slot's value, through 1-2 slots and 1-2 nesting levels) x iteration limit 1..12 x fork limit 1..60 x gas limit "
         "300..30M x strict/permissive. distinct = (bytecode, config); non-trivial = at least one fork or a repeated "
         "instruction. Halting is decided on logical steps (watchdog polls), never wall-clock.",
-        t0, ["'always halts' is restated as: the VM ends within (1+F*J)*(L+1)*n*(copy factor) polls and unification "
+        t0, ["'always halts' is restated as: the VM ends within (1+F*J)*(L+1)*(n + 768*copy opcodes) polls and unification "
              "within 64+4*V rounds (V = type variables after the first round)",
              "a poll budget hit that is not explained by either bound is inconclusive"], min_judged=200)
 
